@@ -39,6 +39,13 @@ Clauses(ev, s) ==
             <<"C09.resolve-members", ev.exc = "", ev.exc # "" \/ (ToSet(ev.R) \subseteq ToSet(ev.S) /\ ev.R # <<>>)>> >>
     [] ev.ev = "Roundtrip" ->
          << <<"C09.roundtrip", TRUE, ev.exc = "" /\ ev.v1 = ev.v2>> >>
+    \* "disabled types never appear": after remove(cls) / remove_by_name(name) the class (every class of that name / actual type)
+    \* is not registered any more, whatever happened to the registry before
+    [] ev.ev = "RegOp" ->
+         << <<"C09.removed-gone", ev.op \in {"remove", "disable"},
+              CASE ev.op = "remove" -> ev.arg \notin ToSet(ev.types)
+                [] ev.op = "disable" -> \A c \in ToSet(ev.types) : c # ev.arg /\ (c \in AllClasses => ActualName[c] # ev.arg)
+                [] OTHER -> TRUE>> >>
     [] ev.ev = "Output" ->
          << <<"C09.disabled.output", ev.used # <<>>, ToSet(ev.used) \subseteq ToSet(ev.types)>> >>
     [] OTHER -> <<>>
